@@ -109,6 +109,11 @@ func (v *autoEscapeVisitor) escapePrints(n parse.Node, ct string) {
 }
 
 func (v *autoEscapeVisitor) guessTypeFromName(name string) string {
+	if strings.Contains(name, "{{") || strings.Contains(name, "{%") || strings.Contains(name, "{#") {
+		// With a StringLoader the name is the template source itself, not a file
+		// name: whatever follows its last dot is not an extension.
+		return "html"
+	}
 	name = strings.TrimSuffix(name, ".twig")
 	p := strings.LastIndex(name, ".")
 	if p < 0 {
